@@ -40,9 +40,9 @@ T = [
  ('C37-create-parallel-edge-renumbers-existing', 'C37', F('t-edge-dotted') + K('create'),
   ['create-changed-existing-edge', 'create-returned-existing-id'],
   'd2oracle.Create of a connection parallel to an existing one whose declaration lies in an outer scope inserts the new declaration earlier in the file: the EXISTING connection is renumbered and the returned key names the old one (witness: `z: L1; z.z: L2 {y: L3}; z.z.y -- z.z: E4`, Create("z.z.y -- z.z"))'),
- ('C37-set-label-overridden-by-later-reference', 'C37', F('x-edge-multiref') + K('set'),
-  ['set-value-differs'],
-  'd2oracle.Set of a connection label rewrites the FIRST reference that carries one (`(m1 -> m2)[0].label: E93`) although a later reference (`(m1 -> m2)[0]: E15`) overrides it: the label does not change'),
+ ('C37-set-label-overridden-by-later-reference', 'C37', F('x-edge-multiref') + r'.*"op": \{"attr": "(label|source-arrowhead\.label|target-arrowhead\.label)"',
+  ['set-value-differs', 'set-changed-other-attr'],
+  'd2oracle.Set of a connection label (or arrowhead label) rewrites the FIRST reference that carries one (`(m1 -> m2)[0].label: E93`) although a later reference (`(m1 -> m2)[0]: E15`) overrides it: the label does not change'),
 
  ('C38-delete-unsupported-attribute-is-a-silent-noop', 'C38', None, ['delattr-not-reset-unsupported-attribute'],
   'd2oracle.Delete of x.label / x.shape / x.direction (anything deleteReserved has no case for) returns success and leaves the attribute set'),
@@ -74,6 +74,9 @@ T = [
   'd2oracle.Move across scopes of a container whose descendants are declared through dotted keys loses or misplaces them'),
  ('C39-move-ensure-node-in-wrong-scope', 'C39', F('anc-edge-dotted', 'x-edge-dotted') + K('move'), ['move-new-object'],
   'd2oracle.Move of `m6.e.x` (three levels deep, referenced by a dotted connection endpoint `m6.e.x.d -> m6`) adds a bare key `e` at the file root: a new root object appears'),
+ ('C39-move-object-that-exists-only-through-attribute-keys', 'C39', F('cross-scope', 'x-attr-only') + K('move'),
+  ['move-lost-moved-object', 'move-lost-object', 'move-new-object', 'move-changed-attrs', 'move-wrong-destination-parent'],
+  'd2oracle.Move across scopes of an object that has no declaration key of its own (only `d.m1.style.opacity: 0.3` …) drops it'),
  ('C39-move-panics-on-dotted-connection-endpoints', 'C39', ANY('x-edge-dotted', 'sub-edge-dotted', 'anc-edge-dotted', 't-underscore') + K('move'), ['panic-move'],
   'd2oracle.Move of an object whose subtree is referenced by dotted connection endpoints (`a.z.x <-> q`) panics: slice bounds out of range [-1:] / index out of range (witness: `a: L0; d.e.c: L1; a -> a: E0`, Move("d.e.c","d.b",false))'),
  ('C39-move-ignores-indexed-connection-references', 'C39', ANY('sube-edge-multiref', 'xe-edge-multiref'), ['move-new-object', 'move-lost-edge', 'move-edge-detached', 'move-changed-edge-attrs', 'move-lost-object', 'labels-duplicated'],
@@ -97,6 +100,9 @@ T += [
   'Move across scopes of an object with dotted attribute keys that are also written inside an ancestor map (`a b: {q.width: 120}` next to `a b.q: L7`): the object is lost while a new ID is predicted'),
  ('C40-reconnect-with-indexed-references', 'C40', F('x-edge-multiref') + K('reconnect'), ['reconnect-prediction-for-removed-edge', 'reconnect-edge-id-not-predicted'],
   'ReconnectEdge rewrites the declaring reference only: indexed references `(m3 -> m4)[0]: E8` keep the old endpoints, so the label/attributes they carry are lost or re-create the old connection'),
+ ('C40-move-object-that-exists-only-through-attribute-keys', 'C40', F('cross-scope', 'x-attr-only') + K('move'),
+  ['move-prediction-for-removed-object', 'move-object-id-not-predicted', 'move-refinement'],
+  'see C39-move-object-that-exists-only-through-attribute-keys: the object is dropped while MoveIDDeltas predicts its new ID'),
  ('C40-reconnect-connection-declared-inside-container', 'C40', F('x-edge-in-map') + K('reconnect'), ['reconnect-edge-id-not-predicted', 'reconnect-prediction-for-removed-edge'],
   'ReconnectEdgeIDDeltas mispredicts the new ID of a connection that is declared inside a container map and reconnected to an endpoint outside of it'),
  ('C40-reconnect-next-to-chain', 'C40', F('t-chain') + K('reconnect'), ['reconnect-edge-id-not-predicted', 'reconnect-prediction-for-removed-edge'],
@@ -165,7 +171,7 @@ def build():
         out[prop].append({'id': fid, 'property': prop, 'status': 'open', 'match': m, 'what': what, 'clauses': cs})
     return out
 
-LEARN = {'C38-board-scoped-delete-uses-null-children-not-hoisted', 'C39-move-dotted-declaration-with-map', 'C39-move-into-dotted-destination',
+LEARN = {'C39-move-object-that-exists-only-through-attribute-keys', 'C40-move-object-that-exists-only-through-attribute-keys', 'C38-board-scoped-delete-uses-null-children-not-hoisted', 'C39-move-dotted-declaration-with-map', 'C39-move-into-dotted-destination',
          'C39-move-with-dotted-descendants', 'C39-board-scoped-move-leaves-the-board', 'C40-move-dotted-declaration-with-map',
          'C40-move-into-dotted-destination', 'C40-move-with-dotted-descendants', 'C40-board-scoped-move-leaves-the-board', 'C40-refinement-underscore'}
 
